@@ -1,6 +1,7 @@
 import RpmVerif.Driver.Common
 import RpmVerif.Model.PkgFiles
 import RpmVerif.Spec.Extract
+import RpmVerif.Gen.CompressionLevels
 /-!
 Driver for C12. Op `extract <package> <archive|-> <dest> <jail> [via=…] [umask=<octal>] [uid=<n>]` (see
 harness/src/c12.rs for the wire format). The package is decoded with the header model (`Hdr.parsePackage`) and `PkgFiles.extractInput`,
@@ -160,6 +161,11 @@ def handle (_op : String) (args : List String) (impl : String) : String :=
   | [hp, ha, hd, js] =>
     let umask := ((optOf opts "umask").bind parseOctal).getD 0o022
     let uid := ((optOf opts "uid").bind String.toNat?).getD 0
+    -- the codecs `decompress_stream` has an arm for in the build at hand: rpm-rs' default cargo features, plus bzip2
+    -- unless this is the `feat=nobz` binary (Gen.cargoDefaultFeatureTypes: scraped from Cargo.toml)
+    let nobz := opts.contains "feat=nobz"
+    let supported : Nat → Bool := fun v =>
+      v == 0 || Gen.cargoDefaultFeatureTypes.contains v || (!nobz && Gen.compressionVariants[v]? == some "Bzip2")
     match bytesOfHex hp, (if ha == "-" then some none else (bytesOfHex ha).map some), bytesOfHex hd, (parseJail js).map (fun j => { j with umask := umask }) with
     | some pb, some arch, some dtext, some jail =>
       match relComps dtext with
@@ -167,7 +173,7 @@ def handle (_op : String) (args : List String) (impl : String) : String :=
       | some dest =>
         match parsePackage pb with
         | .ok p =>
-          match extractInput p arch with
+          match extractInput p arch supported with
           | none => answer "*" (judge dest (targetReady jail dest) none impl) "compressed-no-archive"
           | some inp =>
             let r := extract inp dest jail
@@ -181,7 +187,8 @@ def handle (_op : String) (args : List String) (impl : String) : String :=
             let st := (impl.splitOn " ").headD ""
             let esc := if (impl.splitOn " outside=none ").length == 2 then "" else "-escaped"
             let who := if uid == 0 then "" else if predicted then "-user" else "-user-unpredicted"
-            let um := if umask == 0o022 then "" else "-umask"
+            let um := (if umask == 0o022 then "" else "-umask") ++ (if nobz then "-nobz" else "") ++
+              (match arch, inp.tailOk with | some _, false => "-zcut" | _, _ => "")
             answer m v s!"{inputClass inp}{if targetReady jail dest then "" else "-notready"}-{st}{esc}-n{min inp.items.length 3}{um}{who}"
         | _ => answer "parse-err" "dontcare" "parse-err"
     | _, _, _, _ => badReq "args"
